@@ -6,7 +6,6 @@ import (
 	"sort"
 
 	"github.com/unixpickle/model3d/model3d"
-	"verif/vlib"
 	ref "verif/vlib/c07ref"
 )
 
@@ -79,7 +78,7 @@ func solidSubject3(rng *rand.Rand) *subject3 {
 // checkApproxHits3 is the reference comparison for an epsilon-marching
 // collider: decided only when every inside/outside stretch of the ray is longer
 // than 3 epsilon and crossings are not shallow.
-func checkApproxHits3(c *vlib.Case, s *subject3, o, d V3, j judged3, got []model3d.RayCollision, n1 int) {
+func checkApproxHits3(c *kase, s *subject3, o, d V3, j judged3, got []model3d.RayCollision, n1 int) {
 	eps := s.approxEps
 	dn := d.Norm()
 	if math.Abs(j.sdfO) < 2*eps {
@@ -137,7 +136,7 @@ func checkApproxHits3(c *vlib.Case, s *subject3, o, d V3, j judged3, got []model
 
 // checkSolidBall checks SolidCollider.SphereCollision, which is documented as
 // "the solid touches the sphere" (volume, not surface).
-func checkSolidBall(c *vlib.Case, s *subject3) {
+func checkSolidBall(c *kase, s *subject3) {
 	rng := c.Rng
 	eps := s.approxEps
 	size := s.ref.Size()
